@@ -292,6 +292,22 @@ Definition key_field (x : option (fattr * sch)) : Prop :=
   Definition key_of (s : sch) (prev : vlist) : val :=
     match s with SDyn _ ki _ => vl_nth ki prev | _ => VNil end.
 
+  (* an optional value that is omitted because it is zero: zero all the way down, with the schema's type names *)
+  Fixpoint zero_like (s : sch) (v : val) {struct s} : Prop :=
+    match s with
+    | SPrim k => prim_is_zero k v = true
+    | SStruct ty fl => match v with VStruct ty' vs => ty' = ty /\ zero_like_fields fl vs | _ => False end
+    | SDyn _ _ _ => v = VNil
+    end
+  with zero_like_fields (fl : flist) (vs : vlist) {struct fl} : Prop :=
+    match fl, vs with
+    | FNil, VNone => True
+    | FCons a s r, VCons v vr =>
+        (if (fa_tag a =? ANY_TAG) || fa_skip a then True
+         else if fa_slice a then v = VList VNone else zero_like s v) /\ zero_like_fields r vr
+    | _, _ => False
+    end.
+
   (* well-formed KMIP message values: typed per schema, dynamic payloads agreeing with the dispatch
      table applied to the discriminating sibling, required sequences non-empty, sizes below 2^32 *)
   Fixpoint wf (T : tyenv) (s : sch) (key : val) (v : val) {struct v} : Prop :=
@@ -332,6 +348,7 @@ Definition key_field (x : option (fattr * sch)) : Prop :=
              | VList es => wf_elems T s es /\ (fa_req a = true -> es <> VNone)
              | _ => False
              end
+           else if negb (fa_req a) && is_zero s v then zero_like s v    (* omitted *)
            else wf T s (key_of s prev) v
          else True) /\
         wf_fields T r (vl_snoc prev v) vr
@@ -495,9 +512,9 @@ Qed.
 Lemma zeros_of_cons a s r : zeros_of (FCons a s r) = VCons (if fa_slice a then VList VNone else zero_of s) (zeros_of r).
 Proof. reflexivity. Qed.
 
-Lemma prim_zero_is_zero_prim k v : wf_prim k v -> prim_is_zero k v = true -> v = zero_prim k.
+Lemma prim_zero_value k v : prim_is_zero k v = true -> v = zero_prim k.
 Proof.
-  destruct k, v; cbn; try contradiction; try discriminate; intros _ H.
+  destruct k, v; cbn; try discriminate; intros H.
   - apply Z.eqb_eq in H. subst. reflexivity.
   - apply Z.eqb_eq in H. subst. reflexivity.
   - apply N.eqb_eq in H. subst. reflexivity.
@@ -510,25 +527,20 @@ Qed.
 
 (* an optional field that is omitted because it is zero decodes (by not being there) to what it normalises to *)
 Lemma is_zero_normalize T :
-  (forall s key v, wf T s key v -> is_zero s v = true -> normalize T s v = zero_of s) /\
-  (forall fl prev vs, wf_fields T fl prev vs -> fields_zero fl vs = true -> normalize_fields T fl vs = zeros_of fl) /\
+  (forall s v, zero_like s v -> normalize T s v = zero_of s) /\
+  (forall fl vs, zero_like_fields fl vs -> normalize_fields T fl vs = zeros_of fl) /\
   (forall cs : dcases, True).
 Proof.
   apply sch_mutind.
-  - intros k key v Hwf Hz. destruct v; cbn [wf] in Hwf; cbn [is_zero] in Hz;
-      rewrite normalize_prim; apply prim_zero_is_zero_prim; assumption.
-  - intros ty fl IH key v Hwf Hz. destruct v; cbn [wf] in Hwf; try contradiction.
-    destruct Hwf as [-> [Hf _]]. cbn [is_zero] in Hz. cbn [normalize zero_of]. f_equal. eapply IH; eauto.
-  - intros h ki cs _ key v _ Hz. destruct v; cbn [is_zero] in Hz; try discriminate. reflexivity.
-  - intros prev vs Hwf _. destruct vs; cbn [wf_fields] in Hwf; [reflexivity|contradiction].
-  - intros a s IHs r IHr prev vs Hwf Hz. destruct vs as [|v vr]; cbn [wf_fields] in Hwf; [contradiction|].
-    destruct Hwf as [Hv Hr]. cbn [fields_zero] in Hz. apply andb_true_iff in Hz. destruct Hz as [Hzv Hzr].
-    rewrite normalize_fields_cons, zeros_of_cons. f_equal; [|eapply IHr; eauto].
-    unfold norm_field. unfold on_wire in Hv.
-    destruct ((fa_tag a =? ANY_TAG) || fa_skip a); cbn [negb] in Hv; [reflexivity|].
-    destruct (fa_slice a).
-    + destruct v; try contradiction. destruct vs; [reflexivity|discriminate].
-    + eapply IHs; eauto.
+  - intros k v Hz. cbn [zero_like] in Hz. rewrite normalize_prim. apply prim_zero_value. exact Hz.
+  - intros ty fl IH v Hz. destruct v; cbn [zero_like] in Hz; try contradiction.
+    destruct Hz as [-> Hf]. cbn [normalize zero_of]. f_equal. apply IH. exact Hf.
+  - intros h ki cs _ v Hz. cbn [zero_like] in Hz. subst. reflexivity.
+  - intros vs Hz. destruct vs; cbn [zero_like_fields] in Hz; [reflexivity|contradiction].
+  - intros a s IHs r IHr vs Hz. destruct vs as [|v vr]; cbn [zero_like_fields] in Hz; [contradiction|].
+    destruct Hz as [Hv Hr]. rewrite normalize_fields_cons, zeros_of_cons. f_equal; [|apply IHr; exact Hr].
+    unfold norm_field. destruct ((fa_tag a =? ANY_TAG) || fa_skip a); [reflexivity|].
+    destruct (fa_slice a); [subst; reflexivity|apply IHs; exact Hv].
   - exact I.
   - intros; exact I.
 Qed.
@@ -847,14 +859,16 @@ Section RT.
         (* a single value *)
         destruct (negb (fa_req a) && is_zero s v) eqn:Ez.
         { (* optional and zero: omitted *)
+          cbv beta iota in Hwv.
           apply andb_true_iff in Ez. destruct Ez as [Hreq Hzero]. apply negb_true_iff in Hreq.
-          pose proof (proj1 (is_zero_normalize T) s _ v Hwv Hzero) as Hn. rewrite Hn in *. unfold z0 in *.
+          pose proof (proj1 (is_zero_normalize T) s v Hwv) as Hn. rewrite Hn in *. unfold z0 in *.
           assert (Hab: body = [] \/ exists t b', body = be 3 t ++ b' /\ t <> fa_tag a /\ fa_tag a <> ANY_TAG /\ t <> 0 /\ t < 2 ^ 24).
           { destruct (Hfirst _ He) as [->|[t [b'' [-> [Hin [Hz Hl2]]]]]]; [left; reflexivity|]. right. exists t, b''.
             repeat split; auto. intros ->. contradiction. }
           destruct (absent_step a s r (fl_len pfl) explen st actual nsum (vl_app P (VCons (zero_of s) (zeros_of r))) body Hat Hreq Hab)
             as [st1 [Hst1 Hstep]].
           rewrite Hstep. apply Hcont; auto. }
+        cbv beta iota in Hwv.
         destruct (enc_value T s (fa_tag a) v) as [bv|] eqn:Ev; cbn [obind] in He; [|discriminate].
         destruct (enc_fields T r vr) as [body_r|] eqn:Er; cbn [obind] in He; [|discriminate]. injection He as <-.
         destruct (enc_value_starts _ _ _ _ _ Ev) as [b' [Hbv _]].
@@ -965,3 +979,128 @@ Section Top.
       rewrite IH by (cbn in Hf; lia). reflexivity.
   Qed.
 End Top.
+
+(* ------------------------------------------------------------------ *)
+(* re-encoding the decoded (normalised) value reproduces the bytes      *)
+(* ------------------------------------------------------------------ *)
+Lemma is_zero_norm_true T :
+  (forall s v, is_zero s v = true -> is_zero s (normalize T s v) = true) /\
+  (forall fl vs, fields_zero fl vs = true -> fields_zero fl (normalize_fields T fl vs) = true) /\
+  (forall cs : dcases, True).
+Proof.
+  apply sch_mutind.
+  - intros k v H. rewrite normalize_prim. exact H.
+  - intros ty fl IH v H. destruct v; cbn [is_zero] in H; try discriminate. cbn [normalize is_zero]. apply IH. exact H.
+  - intros h ki cs _ v H. destruct v; cbn [is_zero] in H; try discriminate. reflexivity.
+  - intros vs _. reflexivity.
+  - intros a s IHs r IHr vs H. destruct vs as [|v vr]; cbn [fields_zero] in H; [discriminate|].
+    apply andb_true_iff in H. destruct H as [Hv Hr]. rewrite normalize_fields_cons. cbn [fields_zero].
+    rewrite (IHr _ Hr), andb_true_r. unfold norm_field.
+    destruct ((fa_tag a =? ANY_TAG) || fa_skip a); [reflexivity|].
+    destruct (fa_slice a).
+    + destruct v; try discriminate. destruct vs; [reflexivity|discriminate].
+    + apply IHs. exact Hv.
+  - exact I.
+  - intros; exact I.
+Qed.
+
+Section ReEnc.
+  Variable T : tyenv.
+
+  Definition reenc_value (v : val) : Prop :=
+    forall s tag b, enc_value T s tag v = Some b ->
+      enc_value T s tag (normalize T s v) = Some b /\ (is_zero s v = false -> is_zero s (normalize T s v) = false).
+
+  Definition reenc_fields (vs : vlist) : Prop :=
+    forall fl b, enc_fields T fl vs = Some b ->
+      enc_fields T fl (normalize_fields T fl vs) = Some b /\
+      (fields_zero fl vs = false -> fields_zero fl (normalize_fields T fl vs) = false).
+
+  Definition reenc_elems (es : vlist) : Prop :=
+    forall s tag b, enc_elems T s tag es = Some b -> enc_elems T s tag (normalize_elems T s es) = Some b.
+
+  Lemma reenc_prim_case v : (forall s, normalize T s v = v) -> reenc_value v.
+  Proof. intros Hn s tag b H. rewrite Hn. split; [exact H|auto]. Qed.
+
+  Lemma reenc_mut :
+    (forall v, reenc_value v /\ (match v with VList es => reenc_elems es | _ => True end)) /\
+    (forall vs, reenc_fields vs /\ reenc_elems vs).
+  Proof.
+    apply val_mutind.
+    - intros z. split; [|exact I]. apply reenc_prim_case. intros s; destruct s; reflexivity.
+    - intros z. split; [|exact I]. apply reenc_prim_case. intros s; destruct s; reflexivity.
+    - intros z. split; [|exact I]. apply reenc_prim_case. intros s; destruct s; reflexivity.
+    - intros z. split; [|exact I]. apply reenc_prim_case. intros s; destruct s; reflexivity.
+    - intros z. split; [|exact I]. apply reenc_prim_case. intros s; destruct s; reflexivity.
+    - intros z. split; [|exact I]. apply reenc_prim_case. intros s; destruct s; reflexivity.
+    - intros z. split; [|exact I]. apply reenc_prim_case. intros s; destruct s; reflexivity.
+    - intros z. split; [|exact I]. apply reenc_prim_case. intros s; destruct s; reflexivity.
+    - (* VStruct *) intros ty fs [Hf _]. split; [|exact I]. intros s tag b H.
+      destruct s as [k|ty' fl|h ki cs].
+      + rewrite enc_value_prim in H. destruct k; discriminate.
+      + cbn [enc_value] in H. destruct (enc_fields T fl fs) as [body|] eqn:E; cbn [obind] in H; [|discriminate].
+        destruct (Hf fl body E) as [He Hz]. cbn [normalize enc_value]. rewrite He. cbn [obind]. split; [exact H|].
+        cbn [is_zero]. exact Hz.
+      + cbn [enc_value] in H. destruct (T ty) as [d|] eqn:HT; cbn [obind] in H; [|discriminate].
+        destruct (enc_fields T (snd d) fs) as [body|] eqn:E; cbn [obind] in H; [|discriminate].
+        destruct (Hf (snd d) body E) as [He _]. cbn [normalize]. rewrite HT. cbn [enc_value]. rewrite HT. cbn [obind].
+        rewrite He. cbn [obind]. split; [exact H|]. intros _. reflexivity.
+    - (* VList *) intros vs [_ He]. split; [|exact He]. intros s tag b H.
+      destruct s as [k| |]; [rewrite enc_value_prim in H; destruct k; discriminate|cbn [enc_value] in H; discriminate|cbn [enc_value] in H; discriminate].
+    - (* VNil *) split; [|exact I]. intros s tag b H.
+      destruct s as [k| |]; [rewrite enc_value_prim in H; destruct k; discriminate|cbn [enc_value] in H; discriminate|cbn [enc_value] in H; discriminate].
+    - (* VPtr *) intros v [IH _]. split; [|exact I]. intros s tag b H.
+      destruct s as [k|ty' fl|h ki cs].
+      + rewrite enc_value_prim in H. destruct k; discriminate.
+      + cbn [enc_value] in H. discriminate.
+      + destruct v; cbn [enc_value enc_dyn_prim] in H; try discriminate; cbn [normalize enc_value enc_dyn_prim];
+          try (split; [exact H|intros _; reflexivity]).
+        (* pointer to a structure *)
+        destruct (T ty) as [d|] eqn:HT; cbn [obind] in H; [|discriminate].
+        specialize (IH (SDyn h ki cs) tag b). cbn [enc_value normalize] in IH. rewrite HT in IH. cbn [obind] in IH.
+        destruct (IH H) as [He _]. split; [exact He|intros _; reflexivity].
+    - (* VBad *) intros w. split; [|exact I]. intros s tag b H.
+      destruct s as [k| |]; [rewrite enc_value_prim in H; destruct k; discriminate|cbn [enc_value] in H; discriminate|cbn [enc_value] in H; discriminate].
+    - (* VNone *) split.
+      + intros fl b H. destruct fl; cbn [enc_fields] in H; [|discriminate]. split; [exact H|auto].
+      + intros s tag b H. exact H.
+    - (* VCons *) intros v [IHv IHl] vr [IHf IHe]. split.
+      + intros fl b H. destruct fl as [|a s r]; [cbn [enc_fields] in H; discriminate|].
+        rewrite normalize_fields_cons. cbn [enc_fields fields_zero] in *. unfold norm_field.
+        destruct ((fa_tag a =? ANY_TAG) || fa_skip a) eqn:Esk.
+        { destruct (IHf r b H) as [He Hz]. split; [exact He|]. cbn [andb]. exact Hz. }
+        destruct (fa_slice a) eqn:Esl.
+        { destruct v; try discriminate.
+          destruct (enc_elems T s (fa_tag a) vs) as [b1|] eqn:E1; cbn [obind] in H; [|discriminate].
+          destruct (enc_fields T r vr) as [b2|] eqn:E2; cbn [obind] in H; [|discriminate].
+          cbn in IHl. rewrite (IHl s (fa_tag a) b1 E1). cbn [obind]. destruct (IHf r b2 E2) as [He Hz]. rewrite He. cbn [obind].
+          split; [exact H|]. destruct vs; cbn [normalize_elems]; [|intros _; reflexivity]. cbn [andb]. exact Hz. }
+        destruct (negb (fa_req a) && is_zero s v) eqn:Ez.
+        { apply andb_true_iff in Ez. destruct Ez as [Hq Hzv].
+          rewrite (proj1 (is_zero_norm_true T) s v Hzv). rewrite Hq. cbn [andb].
+          destruct (IHf r b H) as [He Hz]. split; [exact He|]. rewrite Hzv. cbn [andb]. exact Hz. }
+        destruct (enc_value T s (fa_tag a) v) as [b1|] eqn:E1; cbn [obind] in H; [|discriminate].
+        destruct (enc_fields T r vr) as [b2|] eqn:E2; cbn [obind] in H; [|discriminate].
+        destruct (IHv s (fa_tag a) b1 E1) as [Hev Hzv]. destruct (IHf r b2 E2) as [He Hz].
+        assert (Hnz: negb (fa_req a) && is_zero s (normalize T s v) = false).
+        { apply andb_false_iff in Ez. destruct Ez as [Hq|Hq]; [rewrite Hq; reflexivity|]. rewrite (Hzv Hq). apply andb_false_r. }
+        rewrite Hnz, Hev. cbn [obind]. rewrite He. cbn [obind]. split; [exact H|].
+        intros Hfz. apply andb_false_iff in Hfz. destruct Hfz as [Hfz|Hfz].
+        * rewrite (Hzv Hfz). reflexivity.
+        * rewrite (Hz Hfz). apply andb_false_r.
+      + intros s tag b H. cbn [enc_elems normalize_elems] in *.
+        destruct (enc_value T s tag v) as [b1|] eqn:E1; cbn [obind] in H; [|discriminate].
+        destruct (enc_elems T s tag vr) as [b2|] eqn:E2; cbn [obind] in H; [|discriminate].
+        destruct (IHv s tag b1 E1) as [Hev _]. rewrite Hev. cbn [obind]. rewrite (IHe s tag b2 E2). exact H.
+  Qed.
+
+  (* encoding the decoded value again reproduces the identical bytes *)
+  Theorem reencode_top ty tag fl vs b :
+    T ty = Some (tag, fl) -> enc_top T (VStruct ty vs) = Some b ->
+    enc_top T (VStruct ty (normalize_fields T fl vs)) = Some b.
+  Proof.
+    intros HT H. unfold enc_top in *. rewrite HT in *. cbn [obind snd fst] in *.
+    destruct (enc_fields T fl vs) as [body|] eqn:E; cbn [obind] in H; [|discriminate].
+    destruct (proj1 (proj2 reenc_mut vs) fl body E) as [He _]. rewrite He. exact H.
+  Qed.
+End ReEnc.
